@@ -41,6 +41,20 @@
 #define NTILE 2
 #endif
 
+/* The flows of a DTD task live in trailing storage behind parsec_dtd_task_t and are reached by the
+ * TASK_FLOW_OF() macro through char* arithmetic past the end of the task struct (struct-hack idiom).
+ * CBMC turns every write through such a pointer into a byte-level rewrite of the whole task object.
+ * spec.py therefore patches (regex on an overlay copy, re-applied from the repository on every run) the ONE
+ * macro TASK_FLOW_OF in insert_function_internal.h to the typed equivalent &((vtask_t*)task)->f[i];
+ * the layout identity offsetof(vtask_t, f) == sizeof(parsec_dtd_task_t) is checked at compile time below. */
+#include "parsec/interfaces/dtd/insert_function_internal.h"
+typedef struct vp_vtask_s {
+    parsec_dtd_task_t       t;
+    parsec_dtd_task_flow_t  f[NF];     /* TASK_FLOW_OF(): directly behind the task */
+    uint32_t                sent[NF];  /* rank_sent_to storage (1 word per flow: nb_nodes = 1) */
+} vtask_t;
+_Static_assert(offsetof(vtask_t, f) == sizeof(parsec_dtd_task_t), "flows start directly behind the task struct");
+
 static void *vp_tm_alloc(parsec_thread_mempool_t *tm);
 static void  vp_tm_free(parsec_thread_mempool_t *tm, void *elt);
 static void  vp_mp_free(parsec_mempool_t *mp, void *elt);
@@ -57,11 +71,6 @@ static void  vp_mp_free(parsec_mempool_t *mp, void *elt);
 #undef usleep
 
 /* ------------------------------------------------------------------ objects */
-typedef struct {
-    parsec_dtd_task_t       t;
-    parsec_dtd_task_flow_t  f[NF];     /* TASK_FLOW_OF(): directly behind the task */
-    uint32_t                sent[NF];  /* rank_sent_to storage (1 word per flow: nb_nodes = 1) */
-} vtask_t;
 
 /* one separate static object per task / class / tile / copy (an array of these big structs makes every
  * write through a computed pointer rewrite the whole array in CBMC) */
